@@ -35,6 +35,24 @@ TH.EXTRA["tat_inj (a duplicate-free tuple holds different elements at different 
     [_k, _x, _y], z3.Implies(z3.And(TH.distinct_t(_k), 0 <= _x, _x < TH.tlen(_k), 0 <= _y, _y < TH.tlen(_k), TH.tat(_k, _x) == TH.tat(_k, _y),
                                     TIDX(_k, TH.tat(_k, _x)) == TIDX(_k, TH.tat(_k, _x))), _x == _y),
     patterns=[z3.MultiPattern(TH.tat(_k, _x), TH.tat(_k, _y), TH.distinct_t(_k))])
+# common(k1, k2) = |set(k1) & set(k2)| as the specification term scommon(tset(k1), tset(k2)) (hv/pyvc/theory.py, hv/contracts/similarity.py):
+# the value `intersection(set(e_i), set(e_j))` returns by its contract, so no cardinality reasoning is needed in the projection's own proof
+NXVIEWS["common"] = lambda eng, p, g, k1, k2: T.sv_int(TH.scommon(TH.tset(k1.t), TH.tset(k2.t)))
+def _cent(kind):
+    return lambda eng, p, g: T.sv_map(T.INT, T.REAL, g.fields["_gv"].t, TH.nx_centrality(kind, g.ty.cls)(
+        g.fields["_gv"].t, g.fields["_ge"].t, g.fields["_gw"].dom, g.fields["_gw"].val))
+
+
+NXVIEWS["BC"] = _cent("betweenness_centrality")      # nx.betweenness_centrality(g) / nx.closeness_centrality(g) as specification terms
+NXVIEWS["CC"] = _cent("closeness_centrality")
+NXVIEWS["pairkey"] = lambda eng, p, g, a, b: T.scalar(T.TUP, TH.canon(TH.tpair(eng.coerce(a, T.INT).t, eng.coerce(b, T.INT).t)))   # tuple(sorted((a, b)))
+def _bpos(eng, p, g, d, k, x):
+    """d[k].index(x) for a dict d of lists; mentioning it puts the enumeration facts of d[k] on the path (k must not be a bound variable)"""
+    mv, kk = eng.bag_enum(d, eng.coerce(k, d.ty.k), p)
+    return T.sv_int(eng.bag_fns(d.ty)[1](mv, kk, x.t))
+
+
+NXVIEWS["bpos"] = _bpos
 NXVIEWS["tindex"] = lambda eng, p, g, k, n: T.sv_int(TIDX(k.t, eng.coerce(n, T.INT).t))
 
 DONE1 = "any(count(_done1, k) >= 1 and a in k and b in k for k in Tuple)"
@@ -95,11 +113,11 @@ TABLE = {"dom": "all((i in id_to_edge) == (0 <= i and i < cont) for i in Int)",
          "cont": "cont == len(_done0)",
          "e2i_dom": "all((k in edge_to_id) == (count(_done0, k) >= 1) for k in Key)",
          "inv1": "all(id_to_edge[edge_to_id[k]] == k and 0 <= edge_to_id[k] and edge_to_id[k] < cont for k in edge_to_id)",
-         "inv2": "all(edge_to_id[id_to_edge[i]] == i and id_to_edge[i] in edge_to_id for i in id_to_edge)"}
+         "inv2": "all(edge_to_id[id_to_edge[i]] == i and id_to_edge[i] in edge_to_id for i in id_to_edge if trig(id_to_edge[i]))"}
 FINAL_TABLE = {"dom": "all((i in id_to_edge) == (0 <= i and i < card(E(h))) for i in Int)",
                "e2i_dom": "all((k in edge_to_id) == (k in E(h)) for k in Key)",
                "inv1": "all(id_to_edge[edge_to_id[k]] == k and 0 <= edge_to_id[k] and edge_to_id[k] < card(E(h)) for k in edge_to_id)",
-               "inv2": "all(edge_to_id[id_to_edge[i]] == i and id_to_edge[i] in edge_to_id for i in id_to_edge)",
+               "inv2": "all(edge_to_id[id_to_edge[i]] == i and id_to_edge[i] in edge_to_id for i in id_to_edge if trig(id_to_edge[i]))",
                "vertices": "all((i in GV(g)) == (0 <= i and i < card(E(h))) for i in Int)"}
 CONTRACTS += [
     Contract("directed_line_graph@intersection", FILE, ["directed_line_graph"], properties=["C10"],
@@ -128,3 +146,83 @@ CONTRACTS += [
                      "weights": f"all(implies(LINK(g, i, j), HASW(g, i, j) == weighted and implies(weighted, GW(g, i, j) == real({OVER % ('id_to_edge[i]', 'id_to_edge[j]')}))) for i in Int for j in Int)"},
              }),
 ]
+
+# ---- line graph (undirected): vertices 0..|E|-1 numbered through the returned id table
+UTABLE = {k: v.replace("for k in Key", "for k in Tuple").replace("_done0", "_done1") for k, v in TABLE.items()}
+UFINAL = {k: v.replace("for k in Key", "for k in Tuple") for k, v in FINAL_TABLE.items()}
+ADJ = {"adj_dom": "all((n in adj) == (n in V(h)) for n in Node)",
+       "adj_val": "all(count(adj[n], k) == (1 if k in E(h) and n in k else 0) for n in adj for k in Tuple)"}
+TR = "if trig(LINK({g}, a, b))"
+
+
+def _lg(ids, g):
+    """Clause texts of the line graph over the id table `ids` and the graph `g` (instantiated on the links the goal talks about)."""
+    inter = f"common({g}, {ids}[a], {ids}[b])"
+    pair = f"a in {ids} and b in {ids} and a != b"
+    tr = TR.format(g=g)
+    return dict(inter=inter, pair=pair,
+                sound=f"all(implies(LINK({g}, a, b), {pair} and any(m in {ids}[a] and m in {ids}[b] for m in Node) and {inter} >= s) for a in Int for b in Int {tr})",
+                weights=f"all(implies(LINK({g}, a, b), HASW({g}, a, b) and GW({g}, a, b) == (real({inter}) if weighted else 1)) for a in Int for b in Int {tr})")
+
+
+_R, _L = _lg("result[1]", "result[0]"), _lg("id_to_edge", "g")
+_T = TR.format(g="g")
+# a pair of hyperedges is examined the first time a node they share is visited; `vis` remembers the examined pairs
+PA, PB = "bpos(g, adj, n, id_to_edge[a])", "bpos(g, adj, n, id_to_edge[b])"
+HERE = "(n in id_to_edge[a] and n in id_to_edge[b])"
+LC2 = f"all(implies({_L['pair']} and m in _done2 and m in id_to_edge[a] and m in id_to_edge[b] and {_L['inter']} >= s, LINK(g, a, b)) for a in Int for b in Int for m in Node if trig(LINK(g, a, b), m in id_to_edge[a]))"
+LC3 = f"all(implies({_L['pair']} and {HERE} and ({PA} < _j3 or {PB} < _j3) and {_L['inter']} >= s, LINK(g, a, b)) for a in Int for b in Int {_T})"
+LC4 = f"all(implies({_L['pair']} and {HERE} and ({PA} < i or {PB} < i or ({PA} == i and {PB} < _j4) or ({PB} == i and {PA} < _j4)) and {_L['inter']} >= s, LINK(g, a, b)) for a in Int for b in Int {_T})"
+VS = f"all(implies({_L['pair']} and pairkey(g, a, b) in vis and {_L['inter']} >= s, LINK(g, a, b)) for a in Int for b in Int {_T})"
+NOWT = f"all(implies(not LINK(g, a, b), not HASW(g, a, b)) for a in Int for b in Int {_T})"
+POS_OK = "all(implies(k in E(h) and n in k, 0 <= bpos(g, adj, n, k) and bpos(g, adj, n, k) < len(adj[n]) and count(adj[n], k) == 1) for k in Tuple if trig(bpos(g, adj, n, k)))"
+COMMON = {**{k: v for k, v in UFINAL.items()}, "links_sound": _L["sound"], "links_seen": VS, "weights": _L["weights"], "noweight": NOWT}
+CONTRACTS += [
+    # two hyperedges are joined exactly when they are different, share a node and their intersection has at least s nodes (for s >= 1 the
+    # middle condition follows from the last; it is what makes the enumeration through the per-node incidence lists complete); the link
+    # carries the intersection size as weight when weighted=True and 1 otherwise; vertices 0..|E|-1 are numbered by the returned id table
+    Contract("line_graph@intersection", FILE, ["line_graph"], properties=["C10", "C20"], options={"pair_literals", "tuple_sets"},
+             params={"h": "Obj[Hypergraph]", "distance": "Str", "s": "Int", "weighted": "Bool"}, fixed={"distance": "intersection"},
+             result="Multi[Obj[NxGraph],Map[Int,Tup]]", pure=True,
+             locals={"adj": "Map[Int,Bag[Tup]]", "edge_to_id": "Map[Tup,Int]", "id_to_edge": "Map[Int,Tup]", "vis": "Map[Tup,Bool]"},
+             requires={"wf": "wf(h)"},
+             ensures={"ids_dom": f"all((i in {IDS}) == (0 <= i and i < card(E(h))) for i in Int)",
+                      "ids_edges": f"all({IDS}[i] in E(h) for i in {IDS})",
+                      "ids_injective": f"all(implies(i in {IDS} and j in {IDS} and {IDS}[i] == {IDS}[j], i == j) for i in Int for j in Int)",
+                      "ids_onto": f"all(any(i in {IDS} and {IDS}[i] == k for i in Int) for k in E(h))",
+                      "vertices": "all((i in GV(result[0])) == (0 <= i and i < card(E(h))) for i in Int)",
+                      "links_sound": _R["sound"],
+                      "links_complete": f"all(implies({_R['pair']} and m in {IDS}[a] and m in {IDS}[b] and {_R['inter']} >= s, LINK(result[0], a, b)) for a in Int for b in Int for m in Node if trig(LINK(result[0], a, b), m in {IDS}[a]))",
+                      "weights": _R["weights"]},
+             invariants={
+                 0: {"adj_dom": "all((n in adj) == (count(_done0, n) >= 1) for n in Node)", "adj_val": ADJ["adj_val"]},
+                 1: UTABLE,
+                 2: {**COMMON, "links_complete": LC2},
+                 3: {**COMMON, "node": "n in adj and n not in _done2", "pos_ok": POS_OK, "links_done": LC2, "links_rows": LC3},
+                 4: {**COMMON, "node": "n in adj and n not in _done2", "pos_ok": POS_OK, "links_done": LC2, "links_rows": LC4},
+             }),
+]
+
+
+# ------------------------------------------------------------------ hypergraphx/measures/s_centralities.py (C20)
+# the s-betweenness / s-closeness of a hyperedge is the networkx centrality of its vertex in the s-line graph built by line_graph (verified
+# above): every hyperedge receives exactly one value, read through the id table; networkx's centrality functions are uninterpreted
+SC = "hypergraphx/measures/s_centralities.py"
+LGL, IDL = 'local("lg")', 'local("id_to_edge")'
+_SL = _lg(IDL, LGL)
+
+
+def _s_contract(name, view):
+    return Contract(name, SC, [name], properties=["C20"],
+                    params={"H": "Obj[Hypergraph]", "s": "Int"}, result="Map[Tup,Real]", pure=True,
+                    requires={"wf": "wf(H)"},
+                    ensures={"one_value_per_hyperedge": "all((k in result) == (k in E(H)) for k in Tuple)",
+                             "value": f"all(implies(i in {IDL}, result[{IDL}[i]] == {view}({LGL})[i]) for i in Int)",
+                             "table": f"all((i in {IDL}) == (0 <= i and i < card(E(H))) for i in Int) and all({IDL}[i] in E(H) for i in {IDL})",
+                             "vertices": f"all((i in GV({LGL})) == (i in {IDL}) for i in Int)",
+                             "links_sound": _SL["sound"].replace("E(h)", "E(H)"),
+                             "links_complete": f"all(implies({_SL['pair']} and m in {IDL}[a] and m in {IDL}[b] and {_SL['inter']} >= s, LINK({LGL}, a, b)) "
+                                               f"for a in Int for b in Int for m in Node if trig(LINK({LGL}, a, b), m in {IDL}[a]))"})
+
+
+CONTRACTS += [_s_contract("s_betweenness", "BC"), _s_contract("s_closeness", "CC")]
